@@ -450,6 +450,45 @@ pub fn run(rep: &mut Rep) {
             }
         }
     }
+    // (c3) conformant inbound traffic is no cause either: every sequence of up to 2 (thorough: 3) packets over the
+    //      38-symbol alphabet of C08 (PUBLISH of every QoS / DUP / subscription-identifier situation for two packet
+    //      identifiers, PUBREL) - re-deliveries, repeated releases, releases of unknown identifiers included
+    {
+        let alpha = super::c08::alphabet(&[1, 2]);
+        let len = if rep.quick() { 2 } else { 3 };
+        let n = alpha.len() as u64;
+        let total = n.pow(len);
+        rep.note(&format!("inbound traffic: all {total} sequences of {len} inbound packets over {n} symbols (PUBLISH QoS 0/1/2 x id 1/2 x DUP x subscription identifier registered / stream dropped / unknown / absent; PUBREL): run() stays pending and a ping completes afterwards"));
+        let mut iidx = 58_000_000u64;
+        for k in 0..total {
+            let id = format!("inbound:{len}:{k}");
+            iidx += 1;
+            if !rep.take(iidx, &id) {
+                continue;
+            }
+            let mut st = super::c08::setup(rep.seed);
+            let mut kk = k;
+            for _ in 0..len {
+                super::c08::apply(&mut st, alpha[(kk % n) as usize]);
+                kk /= n;
+                st.w.settle_check();
+            }
+            let p = st.w.start(0, Kind::Ping);
+            st.w.settle_check();
+            st.w.pingresp();
+            st.w.settle_check();
+            if st.w.sim.ops[p].out.is_none() && st.w.viols.is_empty() {
+                let r = st.w.sim.run_result();
+                st.w.viol(&["C13"], "C13/not-serving-after-inbound-traffic".into(), format!("a ping after conformant inbound traffic does not complete; run() = {:?}", r));
+            }
+            finish(&mut st.w);
+            rep.add("evaluations", 1);
+            rep.add("inbound_traffic_sequences", 1);
+            rep.distinct(&("inbound", len, k));
+            harvest(rep, &mut st.w, &id);
+            add_counters(rep, &st.w);
+        }
+    }
     // (d) the same Context on a second (and third) connection: every way the first one ended x every way of connecting
     // again: run() must keep serving until a cause occurs on *that* connection, and then report that cause
     let causes = [
